@@ -1,7 +1,7 @@
 """C05 -- error level never below the request; boosting keeps the version."""
 import common, enc, gen, sweep, encprop
 
-TOP = ['theories/Props/C05.v', 'theories/Tie/TieTables.v', 'theories/Tie/TieBoost.v']
+TOP = ['theories/Props/C05.v', 'theories/Tie/TieTables.v', 'theories/Tie/TieBoost.v', 'theories/Tie/TieApiQr.v', 'theories/Tie/TieApiMake.v']
 WANT = ('decode',)
 RULE = ('exact-fit and fit+1 lengths for every (version, level -> next level) threshold, requested level x boost_error x micro; '
         'each case is also encoded with boost_error=False to compare versions; verdict by the extracted boost specification')
@@ -70,9 +70,65 @@ def cases(ctx):
     return out
 
 
+def factory_checks(ctx):
+    """The public factory functions must hand `error` and `boost_error` through: with boost_error=False the level read from the
+    format information is the requested one (L when none is requested, none for M1), with boosting it is the highest fitting one."""
+    import segno
+    r2 = __import__('random').Random(ctx.seed * 13 + 5)
+    fails, n = [], 0
+    jobs = []
+    for content in ('7', '777777', '12345678', 'ABC', 'HELLO WORLD', 'abc', 'a' * 14):
+        for fn_name, kw0 in (('make', {}), ('make', {'micro': True}), ('make', {'micro': False}), ('make_qr', {}), ('make_micro', {})):
+            for error in (None, 'L', 'M', 'Q'):
+                for version in (None, 'M4', 2):
+                    if (version == 'M4' and (fn_name == 'make_qr' or kw0.get('micro') is False)) or (version == 2 and (fn_name == 'make_micro' or kw0.get('micro'))):
+                        continue
+                    for boost in (False, True):
+                        kw = dict(kw0, boost_error=boost)
+                        if error:
+                            kw['error'] = error
+                        if version:
+                            kw['version'] = version
+                        jobs.append((fn_name, content, kw))
+    symbols = []
+    for fn_name, content, kw in jobs:
+        import impl
+        r = impl.call(lambda: getattr(segno, fn_name)(content, **kw))
+        if r[0] == 'ok':
+            symbols.append((fn_name, content, kw, r[1]))
+    decs = common.oracle_parallel(['decode ' + enc.rows_str(q.matrix) for _, _, _, q in symbols], chunk=20) if symbols else []
+    for (fn_name, content, kw, q), a in zip(symbols, decs):
+        n += 1
+        d = sweep.parse_decoded(a)
+        if d is None:
+            fails.append({'input': {'call': fn_name, 'content': content, 'kw': repr(kw)}, 'observed': 'unreadable symbol', 'expected': 'a readable symbol'})
+            continue
+        base = kw.get('error') or 'L'
+        lvl = d['level']
+        if d['version'] == -3:
+            continue
+        if not kw['boost_error']:
+            if lvl != base:
+                fails.append({'input': {'call': fn_name, 'content': content, 'kw': repr(kw)}, 'observed': 'level %s (version %s)' % (lvl, enc.vname(d['version'])),
+                              'expected': 'boost_error=False: the requested level %s' % base})
+        elif len(d['segments']) == 1:
+            want = sweep.LEVEL_OF_CONST[int(common.oracle(['spec_boost %d %d 0 %s' % (d['version'], gen.LEVELS[base], sweep.spec_segs(d))])[0])]
+            if want != lvl:
+                fails.append({'input': {'call': fn_name, 'content': content, 'kw': repr(kw)}, 'observed': 'level %s' % lvl,
+                              'expected': 'the highest fitting level %s of version %s' % (want, enc.vname(d['version']))})
+    return fails, n
+
+
 def run(ctx):
-    return encprop.run_cases(ctx, cases(ctx), WANT, judge, RULE)
+    res = encprop.run_cases(ctx, cases(ctx), WANT, judge, RULE)
+    fails, n = factory_checks(ctx)
+    res['failures'] += fails[:10]
+    res['evaluations'] += n
+    return res
 
 
 def replay(rec):
+    if 'call' in rec.get('input', {}):
+        import sys
+        return common.replay_by_rerun(sys.modules[__name__], rec)
     return encprop.replay_case(rec, WANT, judge)
